@@ -64,7 +64,7 @@ def mk_case(rng, names, edges, remove):
             res = [[names[0], "additive", value(rng)]]
         nodes.append({"name": nm, "resources": res})
     # half of the cases ask for the rewrite as a post-processing stage of compile_routine instead of calling it directly
-    return {"dict": dl, "remove": remove, "nodes": nodes, "names": list(names), "via_stage": rng.random() < 0.5}
+    return {"dict": dl, "remove": remove, "nodes": nodes, "names": list(names), "via_stage": rng.random() < 0.5, "twin": rng.random() < 0.3}
 
 
 def all_graphs(names):
